@@ -377,7 +377,7 @@ func TestC17ClientAdoption(t *testing.T) {
 			return e
 		}
 		round := func(t *rapid.T) {
-			kind := rapid.SampledFrom([]string{"list", "list", "list-bad-entry", "migration", "migration-bad-outer", "migration-blank-outer", "migration-bad-inner", "migration-other-device", "migration-same-gca"}).Draw(t, "replyKind")
+			kind := rapid.SampledFrom([]string{"list", "list", "list-bad-entry", "migration", "migration-bad-outer", "migration-blank-outer", "migration-bad-inner", "migration-other-device", "migration-whole-reply-for-other-device", "migration-same-gca"}).Draw(t, "replyKind")
 			base := ref.SyncReply{DeviceKey: w.dev.Pub}
 			for i := range base.Bitfield {
 				base.Bitfield[i] = 0xff
@@ -426,6 +426,12 @@ func TestC17ClientAdoption(t *testing.T) {
 				outer := w.gca
 				if kind == "migration-bad-outer" {
 					outer = rapid.SampledFrom([]ref.Key{ng, w.dev, keyFor("other-gca"), w.fakes[0].Key}).Draw(t, "outerSigner")
+				}
+				if kind == "migration-whole-reply-for-other-device" {
+					// header, order and signatures all consistent - for another device
+					other := keyFor("another-device-with-order").Pub
+					base.DeviceKey = other
+					m.Equipment = other
 				}
 				base.GCASig = ref.Sign(outer, m.SigningBytes())
 				if kind == "migration-blank-outer" { // no order signature at all (all zero), or a constant
